@@ -95,7 +95,7 @@ TYPEVALS = ["t" + t for t in TYPES]
 SIMPLE_VALS = ["u", "T", "F", "I", "Q"]
 
 
-HUGE_MARKS = [i(I32_MAX), i(I32_MIN), INF, NINF, f(1e308)]
+HUGE_MARKS = [i(I32_MAX), i(I32_MIN), INF, NINF, f(1e308), f(1e19), f(1e300), f(1.8446744073709552e19), f(4294967296.0), f(2147483648.0), f(-2147483649.0), f(-1e308)]
 
 
 def is_huge(v):
@@ -299,6 +299,103 @@ def nested_cases(tier, rng):
             cases.append("O %s A %s %s %s" % (imp, op, a, b))
             cases.append("O %s A %s %s %s" % ("B" if imp == "S" else "S", op, a, b))
     return cases
+
+
+def resource_cases(tier, rng):
+    """cases that materialise 2^31 or more positions of a range: listing / rendering them is a question of time and
+    memory (known finding C07-K1), but they must still never PANIC.  Run under a short watchdog deadline."""
+    cases = []
+    huge = RANGES_HUGE + [v for v in SLICES if is_huge(v)][:6] + ["R(%s,%s)" % (i(3), f(1e19)), "R(%s,%s)" % (f(0.0), f(1.8446744073709552e19))]
+    for v in huge:
+        for t in ("List", "CharList", "ByteList", "Symbol"):
+            for imp in "SB":
+                cases.append("O %s A ApplyType %s t%s" % (imp, v, t))
+    progs = ["(0 .. 2147483646) ~# (,)", "((0 - 2147483647) .. 2147483646) ~# (1,)", "(0.0 .. 1e19) ~# (,)", "((1 2 3) ~ (0 .. 2147483646)) ~# \"\"",
+             "(0.0 .. 1e308) ~# (,)", "((1 2 3) ~ (0 .. 2147483646)) ~# (,)", "(0 .. 2147483646) ~# \"\""]
+    for p in progs:
+        src = ",".join("%x" % ord(c) for c in p)
+        for imp in "SB":
+            cases.append("P %s A 2000 %s" % (imp, src))
+    return cases
+
+
+def is_resource_case(case):
+    """classifier of known finding C07-K1: the case asks for 10^7 or more positions of a range to be listed or rendered"""
+    p = case.split(" ")
+    if p[0] == "O":
+        return any(is_huge(v) for v in p[4:6])
+    if p[0] == "P":
+        src = decode_program(case)
+        if ".." not in src:
+            return False
+        import re
+        for m in re.finditer(r"\d+(\.\d+)?(e\d+)?", src):
+            t = m.group(0)
+            try:
+                if abs(float(t)) >= 1e7:
+                    return True
+            except (ValueError, OverflowError):
+                return True
+        return False
+    return False
+
+
+def x_cases(tier, rng):
+    """index-arithmetic cases, observed through the public getters / single instructions on both stores and
+    predicted by the extracted Coq model (ocaml/idx_driver.ml)"""
+    nums = [n for n in NUMBERS]
+    small_nums = [i(0), i(1), i(2), i(3), i(4), i(5), i(-1), i(-2), i(7), i(I32_MAX), i(I32_MIN), f(0.5), f(1.0), f(2.5), f(-0.5), f(3.0),
+                  f(1e19), f(1.8446744073709552e19), f(1e308), INF, NINF, NAN, f(4294967296.0), f(2147483648.0)]
+    for _ in range(30 if tier == "thorough" else 6):
+        nums.append(i(rng.randint(I32_MIN, I32_MAX)))
+        nums.append(f(rng.uniform(-10, 10)))
+        nums.append(f(rng.uniform(-1, 1) * 10 ** rng.randint(0, 25)))
+    lens = [0, 1, 2, 3, 5, 27, 300]
+    cases = []
+    for n in nums:
+        cases.append("X usize S %s" % n)
+    for imp in "SB":
+        for kind in "lcbs":
+            for ln in lens:
+                for n in nums:
+                    cases.append("X item %s %s %d %s" % (imp, kind, ln, n))
+        for kind in "lcbsn":
+            for ln in lens[:6]:
+                for a in small_nums:
+                    for b in small_nums:
+                        cases.append("X iter %s %s %d %s %s" % (imp, kind, ln, a, b))
+        for kind in "lcb":
+            for ln in lens:
+                for n in nums:
+                    cases.append("X access %s %s %d %s" % (imp, kind, ln, n))
+            for ln in (0, 3, 5):
+                for n in small_nums:
+                    for a in small_nums[:14]:
+                        for b in small_nums[:14]:
+                            cases.append("X access %s %s %d %s %s %s" % (imp, kind, ln, n, a, b))
+        for a in small_nums:
+            for b in small_nums:
+                for n in small_nums:
+                    cases.append("X raccess %s %s %s %s" % (imp, a, b, n))
+                cases.append("X lenof %s R(%s,%s)" % (imp, a, b))
+                for op in ("MakeRange", "MakeStartExclusiveRange", "MakeEndExclusiveRange", "MakeExclusiveRange"):
+                    cases.append("X range %s %s %s %s" % (imp, op, a, b))
+        # range -> list casts over moderate spans only (a span of 2^31 items is a resource question)
+        span = [i(0), i(1), i(3), i(-2), i(5), i(40), i(100), f(0.5), f(2.5), f(-1.5), f(7.25), i(I32_MAX), i(I32_MAX - 2), i(I32_MIN), i(I32_MIN + 3), NAN]
+        for a in span:
+            for b in span:
+                za, zb = val_of(a), val_of(b)
+                if za is None or zb is None or zb - za < 3000:
+                    cases.append("X cast %s R(%s,%s) List" % (imp, a, b))
+    return cases
+
+
+def val_of(t):
+    """numeric value of a number token (None for NaN)"""
+    if t[0] == "i":
+        return int(t[1:], 16)
+    x = struct.unpack("<d", struct.pack("<Q", int(t[1:], 16)))[0]
+    return None if x != x else x
 
 
 # ------------------------------------------------------------------ programs
